@@ -2,6 +2,7 @@ package c17
 
 import (
 	"math"
+	"math/big"
 	"math/rand"
 	"strconv"
 	"strings"
@@ -52,6 +53,24 @@ var floatPool = []float64{
 	1.5, -0.25, 1e21, 1e-7, 2.5e3, 0.1, 0.5, -0.5, 3.141592653589793, 1e300, -1e300, 5e-324,
 	1.7976931348623157e308, 2.2250738585072014e-308, 100.0, 1e22, 1e23, 123456.789, -2.5, 0.001, 1e-5, 6.02214076e23,
 	math.Copysign(0, -1), 9007199254740992.0, 18446744073709551616.0, 0.30000000000000004, 1e15, 1e16, 12.0,
+	// integer valued beyond the 64 bit integer types, both signs
+	-1e19, -12345678901234567890.0, -9223372036854777856.0, -18446744073709551616.0, -1.5e19, -1e20, -3e25,
+	3e19, 36893488147419103232.0, 1e30, -1e30,
+}
+
+// beyond64 says that f is an integer no 64 bit integer type holds and whose
+// float64 is not an in-range integer either (the numerals just below MinInt64
+// round to -2^63 and are judged separately).
+func beyond64(f float64) bool {
+	return f == math.Trunc(f) && (f < -(1<<63) || f >= (1<<64)) && math.Abs(f) < 1e40
+}
+
+func fits64(s string) bool {
+	if _, err := strconv.ParseInt(s, 10, 64); err == nil {
+		return true
+	}
+	_, err := strconv.ParseUint(s, 10, 64)
+	return err == nil
 }
 
 func genString(r *rand.Rand) string {
@@ -81,6 +100,22 @@ func genInt(r *rand.Rand) interface{} {
 }
 
 func genFloat(r *rand.Rand) float64 {
+	if r.Intn(7) == 0 {
+		// an integer beyond int64 / uint64, both signs, near the 64 bit span or far away
+		for {
+			m := math.Ldexp(1+3*r.Float64(), 63)
+			if r.Intn(3) == 0 {
+				m = (1 + 8*r.Float64()) * math.Pow(10, float64(19+r.Intn(20)))
+			}
+			f := math.Trunc(m)
+			if r.Intn(5) < 3 {
+				f = -f
+			}
+			if beyond64(f) {
+				return f
+			}
+		}
+	}
 	switch r.Intn(6) {
 	case 0:
 		return float64(r.Intn(2000001)-1000000) / 1000
@@ -305,18 +340,47 @@ func spellNumber(r *rand.Rand, v interface{}) string {
 	}
 	f := v.(float64)
 	s := ""
+	if beyond64(f) && r.Intn(5) < 3 {
+		// an integer NUMERAL no 64 bit type holds: it denotes the nearest
+		// float64, so any integer inside the rounding interval of f will do
+		if bi, ok := new(big.Int).SetString(model.NumCanon(f), 10); ok {
+			s = bi.String()
+			bi.Add(bi, big.NewInt(int64(r.Intn(2001)-1000)))
+			if t := bi.String(); r.Intn(3) > 0 && !fits64(t) {
+				if g, err := strconv.ParseFloat(t, 64); err == nil && g == f {
+					s = t
+				}
+			}
+			return s
+		}
+	}
 	if r.Intn(2) == 0 {
 		s = strconv.FormatFloat(f, 'g', -1, 64)
 	} else {
 		s = altSpell(r, d)
 	}
-	// A digits-only text is an integer literal and denotes exactly that
-	// integer; the shortest decimal of a float64 beyond 2^53 is not its exact
-	// value, so such a float must keep a fraction or exponent.
+	// A digits-only text that fits a 64 bit integer type is an integer literal
+	// and denotes exactly that integer; the shortest decimal of a float64
+	// beyond 2^53 is not its exact value, so such a float must keep a fraction
+	// or exponent.
 	if digitsOnly(s) && model.NumCanon(f) != s {
 		s = strconv.FormatFloat(f, 'e', -1, 64)
 	}
 	return s
+}
+
+func beyondClass(f float64, exact bool) string {
+	c := "above_2^64"
+	switch {
+	case f <= -(1 << 64):
+		c = "at_or_below_-2^64"
+	case f < 0:
+		c = "between_-2^64_and_-2^63"
+	}
+	if !exact {
+		c += "_inexact"
+	}
+	return c
 }
 
 func digitsOnly(s string) bool {
@@ -334,6 +398,9 @@ func digitsOnly(s string) bool {
 
 func numberClass(s string) string {
 	c := "digits"
+	if digitsOnly(s) && !fits64(s) {
+		c = "digits-beyond-64-bit"
+	}
 	if strings.Contains(s, ".") {
 		c = "frac"
 	}
@@ -598,6 +665,10 @@ func (rd *rend) value(n *model.Node, depth int) {
 		default:
 			s := spellNumber(rd.r, p)
 			rd.note("number_spelling", numberClass(s))
+			if digitsOnly(s) && !fits64(s) {
+				f, _ := strconv.ParseFloat(s, 64)
+				rd.note("ev:integer_numerals_beyond_64_bits", beyondClass(f, model.NumCanon(f) == s))
+			}
 			rd.emit(s)
 		}
 	case isList(n):
